@@ -16,7 +16,12 @@ func main() {
 		panic(err)
 	}
 	prog, spkgs := ssautil.Packages(pkgs, ssa.NaiveForm)
-	for _, p := range spkgs { if p != nil { p.Build() } }; _ = prog
+	for _, p := range spkgs {
+		if p != nil {
+			p.Build()
+		}
+	}
+	_ = prog
 	for _, p := range spkgs {
 		for _, m := range p.Members {
 			if f, ok := m.(*ssa.Function); ok {
